@@ -313,6 +313,9 @@ class Job:
         # This is true if we fetched the result from the cache.
         self.was_cached: bool = False
 
+        # This is true while the job holds the resource units given by its limits.
+        self.holds_resources: bool = False
+
         # Hash of the CallNode associated with running this job. This hash requires knowledge
         # of the Job's result, hence is available after either computing or retrieving the result.
         self.call_hash: Optional[str] = None
@@ -1586,6 +1589,17 @@ class Scheduler:
         for limit_name, count in job_limits.items():
             self.limits_used[limit_name] -= count
 
+    def _release_job_resources(self, job: Job) -> None:
+        """
+        Returns the resource units held by a job, exactly once.
+
+        A job that is done and later rejected (e.g. because a child job failed) must not
+        return its units a second time.
+        """
+        if job.holds_resources:
+            job.holds_resources = False
+            self._release_resources(job.get_limits())
+
     def _add_job_pending_limits(self, job: Job, eval_args: tuple[tuple, dict]) -> None:
         """
         Adds a job to the queue of jobs waiting to run once resources are available.
@@ -1763,6 +1777,7 @@ class Scheduler:
                 self._add_job_pending_limits(job, eval_args)
                 return
             self._consume_resources(job_limits)
+            job.holds_resources = True
 
         # Record that the job is actually starting.
         if job.recording_provenance():
@@ -1842,7 +1857,7 @@ class Scheduler:
 
         # Cached jobs won't have used any resources.
         if not job.was_cached:
-            self._release_resources(job.get_limits())
+            self._release_job_resources(job)
             self._check_jobs_pending_limits()
 
         assert job.task
@@ -2071,7 +2086,7 @@ class Scheduler:
 
             # Cached jobs won't have used any resources.
             if not job.was_cached:
-                self._release_resources(job.get_limits())
+                self._release_job_resources(job)
                 self._check_jobs_pending_limits()
 
             if self.use_task_traceback:
